@@ -11,6 +11,19 @@ TRUST = ('TLC/SANY (and Apalache where named), the JSON bridge between TLC and t
          'guards the bridge. ')
 
 CHECKS = {
+    'C18': dict(
+        technique='TLA+ reference function (spec/SpecsMatcher.tla: tokeniser with longest-operator-first, decimal parser to hundredths, lexicographic string order over a rank table, operator table) with the laws NumLaws / StrLaws / OrLaws / AllInLaws / RangeLaws / RangeOrderError / InGrammar checked by TLC on every enumerated case; every case rendered in several whitespace layouts and executed against specs_matcher.match',
+        category='model_checking',
+        text='The documented operator table is an executable TLA+ definition; TLC enumerates 16.5k/106k cases (every operator x operand '
+             'pairs incl. negative, equal, adjacent and decimal values; strings over letters, digits and punctuation; <or> and '
+             '<all-in> with every 1..5-operand sequence; <range-in> with the four bracket combinations and values on, inside and '
+             'outside both ends; the no-operator fallback) and checks the algebraic relations between operators (= is >=, strict and '
+             'weak differ exactly at equality, <or> is the disjunction of s==, ...). Each case is rendered in 3/8 whitespace layouts '
+             'and the result or exception type of match() compared; a second, Python-level evaluation of the same reference guards '
+             'the bridge.',
+        design_ref='6/C18',
+        note=TRUST + 'Built by a sub-agent from the C10 template and reviewed. Values containing blanks, non-list values for <all-in>, '
+             'non-numerals under numeric operators and operands starting with an operator are outside the stated grammar.'),
     'C16': dict(
         technique='TLA+ codecs on code-point / byte sequences (spec/Text.tla: UTF-8 encoder and validating decoder, UTF-16 with BOM, Latin-1, ASCII; error policies) with RoundTrip / StrictFailsExactly / IgnoreNeverFails checked by TLC on every text up to length 3 over 12 boundary code points; branch contracts SafeDecode / SafeEncode / ToUtf8; to_slug as a transducer over 13 character classes with SlugAlphabet / SlugSingleHyphens / SlugIdempotent; every case executed and compared byte for byte',
         category='model_checking',
